@@ -3464,6 +3464,7 @@ static bool update_template_stream_cb(srtp_stream_t stream, void *raw_data)
     uint32_t ssrc = stream->ssrc;
     srtp_xtd_seq_num_t old_index;
     srtp_rdb_t old_rtcp_rdb;
+    uint32_t old_pending_roc;
 
     /* old / non-template streams are copied unchanged */
     if (stream->session_keys[0].rtp_auth !=
@@ -3480,6 +3481,7 @@ static bool update_template_stream_cb(srtp_stream_t stream, void *raw_data)
     /* save old extended seq */
     old_index = stream->rtp_rdbx.index;
     old_rtcp_rdb = stream->rtcp_rdb;
+    old_pending_roc = stream->pending_roc;
 
     /* remove stream */
     data->status = srtp_stream_remove(session, ntohl(ssrc));
@@ -3503,6 +3505,7 @@ static bool update_template_stream_cb(srtp_stream_t stream, void *raw_data)
     /* restore old extended seq */
     stream->rtp_rdbx.index = old_index;
     stream->rtcp_rdb = old_rtcp_rdb;
+    stream->pending_roc = old_pending_roc;
 
     return true;
 }
@@ -3595,6 +3598,7 @@ static srtp_err_status_t stream_update(srtp_t session,
     srtp_err_status_t status;
     srtp_xtd_seq_num_t old_index;
     srtp_rdb_t old_rtcp_rdb;
+    uint32_t old_pending_roc;
     srtp_stream_t stream;
     srtp_stream_t new_stream;
 
@@ -3616,6 +3620,7 @@ static srtp_err_status_t stream_update(srtp_t session,
     /* save old extendard seq */
     old_index = stream->rtp_rdbx.index;
     old_rtcp_rdb = stream->rtcp_rdb;
+    old_pending_roc = stream->pending_roc;
 
     /*
      * build the replacement stream first, so that the existing stream is
@@ -3647,6 +3652,7 @@ static srtp_err_status_t stream_update(srtp_t session,
     /* restore old extended seq */
     new_stream->rtp_rdbx.index = old_index;
     new_stream->rtcp_rdb = old_rtcp_rdb;
+    new_stream->pending_roc = old_pending_roc;
 
     return srtp_err_status_ok;
 }
